@@ -4,6 +4,8 @@ DEFAULT-SEED, R23 ENGINE-STATE-LAYERING, R24 COUNT-PROTOCOL, R25 ACCUMULATE-ARMS
 engine half of R13.  All THIR pattern work is done on the *inlined view* of the engine
 (rules/inline.py) with path conditions that understand early exits (facts.walk_ctx)."""
 
+import re
+
 from . import facts as F
 from .core import Ctx
 from .facts import (ARRAY, callee, resolved, strip, peel, walk, walk_ctx, loc, field_chain, var_of, lit_value,
@@ -1060,6 +1062,10 @@ def r25_accumulate_arms(facts):
             total += 1
             payload = _some_payload(val)
             if payload is None:
+                if _is_none(val) and name == "gradient":
+                    c.bad("gradient:cleared", loc(bw, n), "the backward pass empties a gradient slot: what earlier passes accumulated there is lost (gradients add up across passes until the "
+                          "caller takes them)")
+                    continue
                 if _is_none(val):
                     continue
                 c.bad("%s:store" % name, loc(bw, n), "the %s slot is set to something that is not Some(..)" % name)
@@ -1467,6 +1473,11 @@ def r10_flag_writers_and_pairing(facts):
         for f_, v in ws:
             if f_ not in want_api[b["name"]]:
                 problems.append("%s() also writes %s" % (b["name"], f_))
+        # ... on every path: an early return leaves the flag as it was for the inputs its condition admits
+        early_ = [x for x in walk(base.root(b)) if x.get("k") == "Return"]
+        if early_:
+            problems.append("%s() has an early `return` (`%s`): on that path the flag is not written, so the call does not do what its name says for some arrays"
+                            % (b["name"], show(early_[0])[:50]))
         # start_tracking / stop_tracking return the PREVIOUS value of is_tracked and nothing else
         if b["name"] in ("start_tracking", "stop_tracking") and (b.get("output") or "") == "bool":
             tl = strip(base.root(b))
@@ -1883,6 +1894,14 @@ def r24_count_protocol(facts):
     eng = engine_bodies(vf)
     c.floor("engine bodies", len(eng), 2)
     counter = role(vf, "counter")
+    if not counter:
+        # a shared counter of a narrower integer type: it overflows as soon as one node has more consumers than the type can count
+        for f_ in vf.adt_fields(ARRAY):
+            mt = re.match(r"alloc::rc::Rc<core::cell::Cell<(u8|u16|u32|i8|i16|i32)>>$", f_["ty"])
+            if mt:
+                a_ = vf.adts.get(ARRAY) or {}
+                c.bad("count:width", "%s:%d" % (F.rel(a_.get("file", "?")), f_["sp"][0]), "the shared consumer counter `%s` is a `%s`: a node consumed by more terms than a `%s` can count "
+                      "(a weight used by a few hundred terms) overflows it - a panic in a debug build, a wrapped count and a wrong pass in a release build" % (f_["name"], mt.group(1), mt.group(1)))
     if not m.ok or not counter or len(eng) < 2:
         c.floor("counter field Rc<Cell<usize>> / pass model", 0, 1)
         return c
